@@ -117,11 +117,11 @@ package vm
 // recycled context must not carry registrations of its previous life); its frame is assumed
 // (tree-shaped context structure): the only child table it changes that the caller can still reach
 // is the context's own.
-//@ func deleteContext [C09,C02,C01,C03]
+//@ func deleteContext [C09,C02,C01,C03,C18]
 //@   checks
 //@   trustframe
 //@   modifies imrow(ctxp.children)
-//@   ensures[own_table_emptied;C09,C02,C01,C03] forall k uint64 :: !imhas(ctxp.children, k)
+//@   ensures[own_table_emptied;C09,C02,C01,C03,C18] forall k uint64 :: !imhas(ctxp.children, k)
 //
 // After a runtime error the machine is back in its initial state (C08: nothing of the failed
 // statement survives but its globals; C19: producing the report never fails) whichever context failed.
